@@ -333,13 +333,15 @@ def AData.binary? : AData → Option Bytes
 /-- Returns the bytes written and the `u16` return value. -/
 def Attr.encode (a : Attr) : Out (Bytes × Nat) :=
   let fin (bs : Bytes) : Out (Bytes × Nat) := .ok (bs, bs.length % 65536)
+  -- `put_fixed_len`: two-octet length when the stored flags carry EXTENDED-LENGTH
+  let fixedLen (n : Nat) : Bytes := if hasExt a.flags then be16 n else [n]
   if a.code = 1 then
     match a.data with
-    | .val v => fin [a.flags, a.code, 1, v % 256]
+    | .val v => fin ([a.flags, a.code] ++ fixedLen 1 ++ [v % 256])
     | _ => .panic
   else if a.code = 4 ∨ a.code = 5 ∨ a.code = 9 then
     match a.data with
-    | .val v => fin ([a.flags, a.code, 4] ++ be32 v)
+    | .val v => fin ([a.flags, a.code] ++ fixedLen 4 ++ be32 v)
     | _ => .panic
   else
     match a.data.binary? with
@@ -538,7 +540,8 @@ def doEncode (p : Profile) (c : Codec) (m : Msg) (es : List Entry) : Out (Bytes 
   | .unreach f _ => do
       let addpath := c.addpathTx f
       if f = Fam.ipv4 ∧ !c.extNh then do
-        let maxLen := 5 + (if addpath then 4 else 0)
+        -- `5 + 2 +`: the Total Path Attribute Length field written after the loop is reserved too
+        let maxLen := 5 + 2 + (if addpath then 4 else 0)
         let (nb, n) ← fitLoop c.maxLen maxLen addpath 21 es
         -- `withdrawn_len: u16 +=` cannot overflow: the loop keeps `dst.len() - pos_head < max ≤ 65535`
         pure (frame 2 (be16 (nb.length % 65536) ++ nb ++ [0, 0]), n)
